@@ -51,6 +51,51 @@ DESC = {
  "C20-m1": ("lib/vorbisfile.c ov_halfrate: roll-back loop never reaches link 0", "chain where a link other than the first has 64-sample blocks, ov_halfrate(vf,1): refused but link 0 stays half-rate"),
  "C20-m2": ("lib/vorbisfile.c _fetch_and_process_packet: half-rate flag read after vorbis_info_clear", "non-seekable chain of >= 2 links with half rate switched on before reading"),
  "C20-m3": ("lib/block.c vorbis_synthesis_blockin: beginning trim not scaled to half rate", "half-rate decoding of a start-trimmed link (first page granule smaller than its packets decode to)"),
+ "C02-r2m1": ("lib/info.c vorbis_synthesis_headerin: the two rejections of an identification packet merged into one test that lets a second one through", "a further b_o_s identification header (other channel count / block sizes) after the three headers were accepted, then decode: the set-up no longer fits the unpacked state"),
+ "C02-r2m2": ("lib/info.c _vorbis_unpack_comment: comment table from malloc instead of calloc", "a comment header that fails part-way through its list: the error path frees uninitialised pointers"),
+ "C02-r2m3": ("lib/codebook.c vorbis_book_decodev_add: inner copy loop no longer stops at the end of the partition", "a hand-built (legal) set-up: residue 1 whose partition size is not a multiple of a stage book's dimension, dimension larger than what is left of the block"),
+ "C03-r2m1": ("lib/vorbisfile.c _fetch_headers: serial list freed but the caller's pointer not reset on the duplicate-serial bail-out", "an initial header group that repeats a serial number: the caller frees the list again"),
+ "C03-r2m2": ("lib/vorbisfile.c _ov_getlap: lapout copy clamped to the whole lap size instead of what is still missing", "lapped call with the old position within a block of the end of a link: writes past the lap buffer"),
+ "C03-r2m3": ("lib/vorbisfile.c ov_bitrate_instant: per-link table indexed with current_link on a streaming handle", "streaming (non-seekable) chain read past the first link boundary, then ov_bitrate_instant"),
+ "C04-r2m1": ("lib/block.c vorbis_analysis_blockout: end-of-input test one sample early", "input lengths that end exactly on a block centre: the last sample/packet is lost"),
+ "C04-r2m2": ("lib/vorbisfile.c _bisect_forward_serialno: wrong granule variable handed to the recursion", "seekable chain of three or more links: a middle link's length is derived from the wrong page"),
+ "C04-r2m3": ("lib/vorbisfile.c ov_read_float: samples consumed before the request size is applied", "a request for fewer samples than a packet produced: the remainder is dropped"),
+ "C07-r2m1": ("lib/vorbisfile.c ov_pcm_seek: skipped packets sized with link 0's set-up", "chain whose link >= 1 has other block sizes than link 0, sample seek into it"),
+ "C07-r2m2": ("lib/vorbisfile.c ov_raw_seek: granule position clamped before the scanned packets are subtracted", "byte seek landing where the first positioned page is within a few blocks of the link start"),
+ "C07-r2m3": ("lib/synthesis.c vorbis_packet_blocksize: mode field one bit too narrow when the mode count is not a power of two", "a stream declaring three modes that uses mode 2 (legal, never written by the encoder), any seek"),
+ "C08-r2m1": ("lib/synthesis.c vorbis_synthesis_trackonly: packet number no longer carried", "sample seek that skips packets track-only and then reads to the end: end-of-stream trimming sees a sequence break"),
+ "C08-r2m2": ("lib/vorbisfile.c ov_pcm_seek_page: upper range check removed", "page seek to a position past the total"),
+ "C08-r2m3": ("lib/vorbisfile.c _seek_helper: offset and sync state updated before the seek callback succeeded", "one failing seek callback, then a seek to the same place"),
+ "C09-r2m1": ("lib/vorbisfile.c _initial_pcmoffset: first audio pages with granule position 0 skipped", "a link whose first audio page(s) end at granule 0 (very short links, one packet per page)"),
+ "C09-r2m2": ("lib/vorbisfile.c ov_raw_seek: first-page test against the link start instead of the data start (same-link branch)", "byte seek into the first audio page of a link"),
+ "C09-r2m3": ("lib/vorbisfile.c _fetch_headers: ready_state not reset on entry", "a stream whose header fetch is re-entered (chained / streaming link change)"),
+ "C10-r2m1": ("lib/vorbisfile.c ov_raw_seek: first-page test against the link start (re-identification branch)", "byte seek into another link's first audio page"),
+ "C10-r2m2": ("lib/vorbisfile.c _fetch_and_process_packet: half-rate setting sampled after the info struct is cleared", "streaming chain with half rate on, crossing a link boundary"),
+ "C10-r2m3": ("lib/vorbisfile.c ov_read_filter: filter applied before the sample count is clamped to the buffer", "ov_read_filter with a filter that is not idempotent and a buffer smaller than the decoded block"),
+ "C11-r2m1": ("lib/block.c vorbis_synthesis_lapout: un-wrap loop runs over the current block's half size", "lapout right after a long->short transition with the ring wrapped"),
+ "C11-r2m2": ("lib/vorbisfile.c ov_pcm_seek_page: first-page special case no longer restarts the synthesis state", "decode something, then seek to a target on the first audio page of the current link"),
+ "C11-r2m3": ("lib/res0.c: residue decode range computed once per decoder and cached", "a stream in which one residue serves both block sizes (legal, never written by the encoder)"),
+ "C12-r2m1": ("lib/vorbisfile.c ov_pcm_seek_page: beginning-of-link case forgets that the decoder may have been dumped", "a failed seek (decoder dumped), then a seek to the start of a link"),
+ "C12-r2m2": ("lib/block.c vorbis_block_clear: memset(sizeof pointer)", "any path that clears a block twice or re-initialises it (failed seek, ov_clear after error)"),
+ "C12-r2m3": ("lib/vorbisfile.c _ov_d_seek_lap: early return after the embedded seek lost", "time-based lapped seek during which one seek/read callback fails"),
+ "C13-r2m1": ("lib/sharedbook.c _make_words: scratch list not freed on the underpopulated-tree rejection", "set-up header with an underpopulated codebook"),
+ "C13-r2m2": ("lib/vorbisfile.c _fetch_headers: freed serial list pointer still handed back", "initial header group that repeats a serial number"),
+ "C13-r2m3": ("lib/info.c vorbis_analysis_headerout: second call frees header1 instead of header2", "vorbis_analysis_headerout called twice on one encoder"),
+ "C14-r2m1": ("lib/bitrate.c: hard-max allowance keyed on the next block's size", "hard maximum with block switching"),
+ "C14-r2m2": ("lib/vorbisenc.c vorbis_encode_setup_managed: default reservoir from the caller's nominal rate instead of the resolved one", "max/min given without a nominal rate: reservoir 0, limits silently off"),
+ "C14-r2m3": ("lib/bitrate.c: min and max enforcement flattened into if/else-if", "both limits, reservoir smaller than the step between adjacent candidate sizes"),
+ "C17-r2m1": ("lib/vorbisfile.c ov_read_filter: channel bound off by one (>=255)", "a 255-channel stream read through ov_read"),
+ "C17-r2m2": ("lib/vorbisfile.c ov_info(vf,-1): current_link used on streaming handles", "streaming chain, ov_read after the first link boundary"),
+ "C17-r2m3": ("lib/vorbisfile.c ov_read_filter: half-rate shift dropped when advancing the position", "ov_read with half rate on"),
+ "C18-r2m1": ("lib/psy.c _vp_psy_init: ATH curve tail left unwritten", "encoder at a sample rate above ~58.7 kHz: output depends on recycled heap contents"),
+ "C18-r2m2": ("lib/vorbisfile.c _get_data: errno no longer cleared before the read callback", "stale errno on the thread plus a data source that really runs into its end during open/seek (trailing bytes after the last page)"),
+ "C18-r2m3": ("lib/lpc.c vorbis_lpc_from_data: early-out leaves one coefficient uninitialised (stack)", "encoder end-of-stream extrapolation on a perfectly predictable signal"),
+ "C19-r2m1": ("lib/vorbisfile.c _ov_splice: window of the longer half short block", "lap between links with different short block sizes"),
+ "C19-r2m2": ("lib/vorbisfile.c _ov_d_seek_lap: time argument narrowed to float", "lapped time seek whose target time is not representable in a float"),
+ "C19-r2m3": ("lib/vorbisfile.c _ov_64_seek_lap: old link's settings looked up before the decoder is re-established", "handle dumped by a failed seek with the cursor in a link > 0 that differs from link 0, then a sample/byte lapped seek"),
+ "C20-r2m1": ("lib/synthesis.c vorbis_synthesis_halfrate: flag stored unnormalised", "half rate switched on with a non-zero flag other than 1"),
+ "C20-r2m2": ("lib/vorbisfile.c ov_pcm_seek: remaining distance measured from the rounded target", "half-rate seek to an odd target"),
+ "C20-r2m3": ("lib/vorbisfile.c ov_halfrate: position not restored when it is exactly 0", "toggle at position 0 after decoding has started"),
 }
 
 def main():
@@ -59,9 +104,9 @@ def main():
     res = {}
     for b in blocks:
         head = b.split("\n", 1)[0]
-        m = re.match(r"mut_(C\d+)\.out/(m\d):\s*(.*)", head)
+        m = re.match(r"(?:seeded/)?(C\d+-(?:r2)?m\d):\s*(.*)", head) or re.match(r"mut_(C\d+)\.out/(m\d):\s*(.*)", head) or re.match(r"mu2_(C\d+)\.out/(m\d):\s*(.*)", head)
         if not m: continue
-        mid = f"{m.group(1)}-{m.group(2)}"
+        mid = m.group(1) if "-" in m.group(1) else (f"{m.group(1)}-{m.group(2)}" if head.startswith("mut_") else f"{m.group(1)}-r2{m.group(2)}")
         r = res.setdefault(mid, {"checks": {}})
         if "PATCH-DOES-NOT-APPLY" in head: r["applies"] = False; continue
         r["applies"] = True
